@@ -18,7 +18,7 @@ import ast
 import re
 
 from .. import AnalysisError
-from ..flow import Flow, Out
+from ..flow import Flow, Out, call_name
 from ..report import Report
 from ..util import where, mwhere, norm
 from ..variants import V
@@ -1924,6 +1924,112 @@ def _rule6(ctx, rep):
             raise AnalysisError('dawgie.pl.scan no longer imports the task modules with importlib.import_module')
 
 
+def _rule7(ctx, rep):
+    """two clauses added after seeded changes C16-8 / C16-9"""
+    prog = ctx.prog
+    with rep.rule(
+        'R-C16-7',
+        '(a) automatic() compares the requested changeset with the revision of the checked-out tree (git rev-parse ... HEAD) - the tree the compliance subprocess inspects - before the gate runs; (b) rule_06 accepts a previous() reference whose implementation lives in the task package itself or below it and rejects one from elsewhere (evaluated on the three cases)',
+        floor=2,
+        breaks='(a) the gate judges a tree other than the changeset that is made operational; (b) a package that follows every rule is rejected because its algorithm class is defined in the package __init__',
+    ) as r:
+        # (a)
+        a = prog.nfunc('dawgie.tools.submit.automatic')
+        rep.analysed(a)
+        r.instance()
+        revs = []
+        for c in a.calls():
+            if isinstance(c.func, ast.Attribute) and c.func.attr == 'execute' and c.args:
+                arg0 = c.args[0]
+                txt = None
+                inner = arg0.func.value if isinstance(arg0, ast.Call) and isinstance(arg0.func, ast.Attribute) and arg0.func.attr == 'split' else arg0
+                if isinstance(inner, ast.Constant) and isinstance(inner.value, str):
+                    txt = inner.value
+                elif isinstance(inner, ast.JoinedStr):
+                    txt = ''.join(v.value if isinstance(v, ast.Constant) else '{' + norm(v.value) + '}' for v in inner.values)
+                elif isinstance(inner, (ast.List, ast.Tuple)):
+                    txt = ' '.join(x.value if isinstance(x, ast.Constant) else '{' + norm(x) + '}' for x in inner.elts)
+                if txt and 'rev-parse' in txt:
+                    revs.append((c, txt))
+        if not revs:
+            raise AnalysisError('tools.submit.automatic no longer determines the checked-out revision with git rev-parse')
+        wrong = [(c, t) for c, t in revs if t.split()[-1] != 'HEAD']
+        r.check(
+            not wrong,
+            f'{a.qname}:compares-checked-out-revision',
+            where(a, wrong[0][0] if wrong else revs[0][0]),
+            'git rev-parse HEAD',
+            f'{a.qname} compares the changeset with "{wrong[0][1] if wrong else ""}" instead of the checked-out HEAD: what the compliance process verifies (the working tree) and what becomes operational can differ',
+        )
+        # (b)
+        f = prog.nfunc('dawgie.tools.compliant.rule_06')
+        rep.analysed(f)
+        r.instance()
+
+        class NU(Exception):
+            pass
+
+        TM = 'ae.net'
+
+        def sval(e, module):
+            if isinstance(e, ast.Constant) and isinstance(e.value, str):
+                return e.value
+            if isinstance(e, ast.Attribute) and e.attr == '__module__':
+                return module
+            if isinstance(e, ast.Call) and (call_name(e) or '').endswith('task_module'):
+                return TM
+            if isinstance(e, ast.BinOp) and isinstance(e.op, ast.Add):
+                return sval(e.left, module) + sval(e.right, module)
+            if isinstance(e, ast.Name):
+                defs = [d.value for d in f.own_nodes() if isinstance(d, ast.Assign) and any(isinstance(t, ast.Name) and t.id == e.id for t in d.targets)]
+                if len(defs) == 1:
+                    return sval(defs[0], module)
+            if isinstance(e, ast.JoinedStr):
+                return ''.join(v.value if isinstance(v, ast.Constant) else sval(v.value, module) for v in e.values)
+            if isinstance(e, ast.Tuple):
+                return tuple(sval(x, module) for x in e.elts)
+            raise NU(norm(e)[:50])
+
+        def struth(e, module):
+            if isinstance(e, ast.BoolOp):
+                vals = [struth(v, module) for v in e.values]
+                return all(vals) if isinstance(e.op, ast.And) else any(vals)
+            if isinstance(e, ast.UnaryOp) and isinstance(e.op, ast.Not):
+                return not struth(e.operand, module)
+            if isinstance(e, ast.Call) and isinstance(e.func, ast.Attribute) and e.func.attr in ('startswith', 'endswith') and len(e.args) == 1:
+                return getattr(sval(e.func.value, module), e.func.attr)(sval(e.args[0], module))
+            if isinstance(e, ast.Compare) and len(e.ops) == 1:
+                x, y = sval(e.left, module), sval(e.comparators[0], module)
+                op = e.ops[0]
+                if isinstance(op, ast.Eq):
+                    return x == y
+                if isinstance(op, ast.NotEq):
+                    return x != y
+                if isinstance(op, ast.In):
+                    return x in y
+                if isinstance(op, ast.NotIn):
+                    return x not in y
+            raise NU(norm(e)[:50])
+
+        verdicts = [c.args[0] for c in f.calls() if isinstance(c.func, ast.Attribute) and c.func.attr == 'append' and norm(c.func.value) == 'findings' and c.args and any(isinstance(x, ast.Attribute) and x.attr == '__module__' for x in ast.walk(c.args[0]))]
+        key = f'{f.qname}:package-or-below'
+        if not verdicts:
+            r.fail(key, where(f), 'rule_06 no longer appends a verdict computed from the implementation module of a previous() reference')
+        else:
+            try:
+                cases = {'ae.net': True, 'ae.net.bot': True, 'zz.other.bot': False}
+                wrong = [(m, struth(verdicts[0], m)) for m, want in cases.items() if struth(verdicts[0], m) != want]
+                r.check(
+                    not wrong,
+                    key,
+                    where(f, verdicts[0]),
+                    'accepts the task package and its sub-modules, rejects another package',
+                    f'rule_06 decides {wrong} for an implementation module relative to the task package "ae.net" (expected: the package itself and its sub-modules accepted, another package rejected)',
+                )
+            except NU as e_:
+                r.fail(key, where(f, verdicts[0]), f'verdict expression of rule_06 not understood: {e_}')
+
+
 def check(ctx):
     rep = Report(
         PID,
@@ -1958,6 +2064,7 @@ def check(ctx):
     _rule4(ctx, rep)
     _rule5(ctx, rep)
     _rule6(ctx, rep)
+    _rule7(ctx, rep)
     return rep
 
 
@@ -2047,6 +2154,8 @@ _WALK_LOOP_HELPER = """def visit(product, ifroutine, inputs):
     return"""
 
 VARIANTS = [
+    V('changeset compared with the stable branch head', 'B', 'tools/submit.py', 'automatic', "'git rev-parse HEAD'.split()", "f'git rev-parse {stable}'.split()", 'R-C16-7'),
+    V('rule_06 demands a sub-module', 'B', 'tools/compliant.py', 'rule_06', 'dawgie.util.task_module(prev.factory)\n                    )', "dawgie.util.task_module(prev.factory) + '.'\n                    )", 'R-C16-7'),
     V('scanner skips modules it cannot import', 'B', 'pl/scan.py', 'advanced_factories', 'm = importlib.import_module(modinfo.name)', 'try:\n                    m = importlib.import_module(modinfo.name)\n                except ImportError:\n                    continue', 'R-C16-6'),
     V('scanner logs and re-raises', 'N', 'pl/scan.py', 'advanced_factories', 'm = importlib.import_module(modinfo.name)', 'try:\n                    m = importlib.import_module(modinfo.name)\n                except ImportError:\n                    LOG.error(modinfo.name)\n                    raise', None),
     V('AE root appended to sys.path', 'B', 'tools/compliant.py', 'main', 'sys.path.insert(\n        0, ', 'sys.path.insert(\n        len(sys.path), ', 'R-C16-5'),
